@@ -20,6 +20,8 @@ Definition view_C03 (case obs: list N) : list N :=
 Definition ok_C03 (case obs: list N) : list N :=
   match event_of case, parse_packet obs with
   | Some e, Some (p, r) =>
+      (* outside the statement: field values out of range, data events whose declared length differs from the payload they hold *)
+      if negb (wf_event e) then [] else
       match parse_dobs r with
       | Some (DVal v, []) =>
           if negb (list_eqb v case) then [1]            (* decoded value differs from the one sent *)
